@@ -167,6 +167,16 @@ func c13Jobs(quick bool) []c13Job {
 			Input: "a1,b1,c1\na2,b2,c2\nx\"y,1,2\na3,b3,c3\na4,b4,c4\nx\"y,1,2\nx\"z,3,4\na5,b5,c5\na6,b6,c6\nq\"\n"},
 		c13Job{Name: "json-failing-records-between-good-ones", Schema: `{` + h("json") + `,"transform_declarations":{"FINAL_OUTPUT":{"xpath":"/*","object":{"n":{"xpath":"n","type":"int"},"s":{"xpath":"s"}}}}}`,
 			Input: `[{"n":"1","s":"a"},{"n":"x","s":"b"},{"n":"3","s":"c"},{"n":"y","s":"d"},{"n":"z","s":"e"},{"n":"6","s":"f"}]`})
+	// one script text used with different sets of argument names (an optional argument; with and without the
+	// node): what a cached compiled script remembers must not include anything of the call site
+	jobs = append(jobs,
+		c13Job{Name: "js-same-script-different-argument-names", Schema: `{` + h("json") + `,"transform_declarations":{"FINAL_OUTPUT":{"xpath":"/*","object":{
+  "a_plain":{"custom_func":{"name":"javascript","args":[{"const":"typeof unit === 'undefined' ? 'qty=' + q : 'qty=' + q + ' ' + unit"},{"const":"q"},{"xpath":"q"}]}},
+  "b_with_unit":{"custom_func":{"name":"javascript","args":[{"const":"typeof unit === 'undefined' ? 'qty=' + q : 'qty=' + q + ' ' + unit"},{"const":"q"},{"xpath":"q"},{"const":"unit"},{"xpath":"u"}]}},
+  "c_other_order":{"custom_func":{"name":"javascript","args":[{"const":"typeof unit === 'undefined' ? 'qty=' + q : 'qty=' + q + ' ' + unit"},{"const":"unit"},{"xpath":"u"},{"const":"q"},{"xpath":"q"}]}},
+  "d_with_node":{"custom_func":{"name":"javascript_with_context","args":[{"const":"typeof unit === 'undefined' ? 'qty=' + q : 'qty=' + q + ' ' + unit"},{"const":"q"},{"xpath":"q"}]}},
+  "e_plain_again":{"custom_func":{"name":"javascript","args":[{"const":"typeof unit === 'undefined' ? 'qty=' + q : 'qty=' + q + ' ' + unit"},{"const":"q"},{"xpath":"u"}]}}}}}}`,
+			Input: `[{"q":"3","u":"kg"},{"q":"4","u":"l"},{"q":"5","u":"m"}]`})
 	jobs = append(jobs,
 		c13Job{Name: "xml-context-on-ancestor", Schema: `{` + h("xml") + `,"transform_declarations":{"FINAL_OUTPUT":{"xpath":"/r/g/o","object":{
   "self":{"custom_func":{"name":"javascript_with_context","args":[{"const":"JSON.parse(_node).v"}]}},
